@@ -185,7 +185,8 @@ Section Threshold.
   Theorem sk_split_bad_params sk t n seed :
     (n < t)%nat \/ (t < 2)%nat -> sk_split O sk t n seed = Val (Err VsssError).
   Proof.
-    intros H. unfold sk_split. destruct (Nat.ltb n t) eqn:E1; [reflexivity|].
+    intros H. unfold sk_split. destruct (Nat.ltb 255 n); [reflexivity|].
+    destruct (Nat.ltb n t) eqn:E1; [reflexivity|].
     destruct (Nat.ltb t 2) eqn:E2; [reflexivity|].
     apply Nat.ltb_ge in E1, E2. lia.
   Qed.
@@ -201,6 +202,10 @@ Section Threshold.
          else Err VsssError).
   Proof.
     intros H2 Htn Hnz. unfold sk_split.
+    destruct (Nat.ltb 255 n) eqn:E255.
+    { apply Nat.ltb_lt in E255. replace (n <=? 255)%nat with false by (symmetry; apply Nat.leb_gt; lia).
+      reflexivity. }
+    apply Nat.ltb_ge in E255.
     replace (Nat.ltb n t) with false by (symmetry; apply Nat.ltb_ge; lia).
     replace (Nat.ltb t 2) with false by (symmetry; apply Nat.ltb_ge; lia).
     rewrite (fill_coeffs_nonzero (t - 1) seed 0) by (intros k Hk; apply Hnz; exact Hk).
